@@ -463,7 +463,35 @@ def c09_obligations(repo_root, tier):
         for d in defaults:
             if isinstance(d, (ast.List, ast.Dict, ast.Set, ast.ListComp, ast.DictComp)) or (isinstance(d, ast.Call) and isinstance(d.func, ast.Name) and d.func.id in ("list", "dict", "set", "defaultdict", "deque")):
                 bad.append(f"{m.name}:{qual} has a mutable default argument {ast.unparse(d)}")
-    ob("liquid2/frame.no-memo", not bad, "no memoising decorator and no mutable default argument in the package" if not bad else "; ".join(bad[:5]),
+    # memoisers applied by call rather than by decoration: X = functools.lru_cache(..)(f), cache(f) - anywhere in the package
+    for m in repo.all_modules():
+        for n in ast.walk(m.tree):
+            if isinstance(n, ast.Call):
+                fname = ast.unparse(n.func).split("(")[0]
+                if fname in MEMO_DECORATORS or fname.split(".")[-1] in MEMO_DECORATORS:
+                    if not any(n is d or (isinstance(d, ast.Call) and d is n) for f_ in ast.walk(m.tree) if isinstance(f_, (ast.FunctionDef, ast.AsyncFunctionDef)) for d in f_.decorator_list):
+                        bad.append(f"{m.name}@memoiser applied by call: {ast.unparse(n)[:80]}")
+    # in-place augmented assignment to a parameter (`names |= other`, `items += more`): the object belongs to the caller - for tags it is
+    # often a class-level constant shared by every render of the process
+    for m, qual, cls, fn, parent in funcs:
+        a = fn.args
+        pnames = {p.arg: p.annotation for p in a.posonlyargs + a.args + a.kwonlyargs}
+        # a parameter unconditionally re-bound (top-level statement of the body) before the update is a local by then
+        rebound_at = {}
+        for st in fn.body:
+            if isinstance(st, ast.Assign):
+                for t in st.targets:
+                    if isinstance(t, ast.Name):
+                        rebound_at.setdefault(t.id, st.lineno)
+        for n in own_nodes(fn):
+            if isinstance(n, ast.AugAssign) and isinstance(n.target, ast.Name) and n.target.id in pnames \
+                    and not (n.target.id in rebound_at and rebound_at[n.target.id] < n.lineno):
+                ann = ast.unparse(pnames[n.target.id]) if pnames[n.target.id] is not None else ""
+                if ann and not any(k in ann for k in ("set", "list", "dict", "Set", "List", "Dict", "Sequence", "Mapping", "Iterable", "object", "Any")):
+                    continue      # numbers / strings are immutable: `n += 1` re-binds the local
+                if isinstance(n.op, (ast.BitOr, ast.BitAnd, ast.Add, ast.Sub, ast.BitXor, ast.Mult)):
+                    bad.append(f"{m.name}:{qual} mutates its parameter in place: {ast.unparse(n)}")
+    ob("liquid2/frame.no-memo", not bad, "no memoising decorator or call, no mutable default argument, no in-place augmented assignment to a parameter in the package" if not bad else "; ".join(bad[:5]),
        witness={"sites": bad} if bad else None)
 
     # (d) render-time methods write only through context / buffer / per-render locals
